@@ -21,6 +21,31 @@ Theorem C01_expand_surfs_den : forall sigma cden matching (t : tree msurf) n t' 
 Proof. exact expand_den. Qed.
 Print Assumptions C01_expand_surfs_den.
 
+From T4V Require Import C01.ProofsT4 C01.ProofsCells C01.ProofsExpand.
+
+(* pot_expand_surfs, the error branch characterised instead of assumed: the
+   expansion succeeds exactly when no surface leaf is in error, and otherwise
+   raises the error of the FIRST offending leaf (left to right): EKey = surface
+   not in `matching` (KeyError), EFacet = facet number above the number of facets
+   (CellConversionError), EIndex = facet number so small that Python's negative
+   index leaves the list (IndexError).  A facet number 0 is not an error: it
+   selects the last facet (Python index -1), which is why C01_expand_surfs_den
+   asks for facets >= 1. *)
+Theorem C01_expand_surfs_errors : forall matching (t : tree msurf) n,
+  match expand matching t n with
+  | Ok _ => first_err matching (all_leaves t) = None
+  | Err e => first_err matching (all_leaves t) = Some e
+  end.
+Proof. exact expand_err. Qed.
+Print Assumptions C01_expand_surfs_errors.
+
+Theorem C01_expand_surfs_facet0 : forall matching s ids n,
+  lookup (Z.abs s) matching = Some ids -> ids <> [] ->
+  exists x, nth_error ids (length ids - 1) = Some x /\
+            expand_leaf matching (s, Some 0) n = Ok (Leaf (signed s x), n).
+Proof. exact expand_facet0. Qed.
+Print Assumptions C01_expand_surfs_facet0.
+
 (* pot_optimise: flattening and pruning keep the region; None only for a region
    that is empty for every sense assignment *)
 Theorem C01_optimise_den : forall sigma cden (t : tree Z),
